@@ -21,7 +21,7 @@ BASE = dict(
     Nets='{"n1", "n2"}', MaxConn=2, MaxInflight=3, MaxChan=4, MaxSched=2, OutBatch=2,
     CIDs='{"c1", "c2"}', SubQoS="{1}", PubQoS="{0, 1}", PubRetain="{FALSE}",
     Subscribers='{"n1"}', Publishers='{"n2"}', Adversaries="{}", MaxPub=3, MaxSubOps=2, MaxCloses=0,
-    EnUnsub="TRUE", EnPing="FALSE", EnDisconnect="FALSE", EnStale="FALSE", RFix=RFIX)
+    EnUnsub="TRUE", EnPing="FALSE", EnDisconnect="FALSE", EnStale="FALSE", PubEmpty="{FALSE}", RFix=RFIX)
 SUBST = dict(MatchRel="MCMatch", Topics="MCTopics", Filters="MCFilters", NetCid="MCNetCid", NetClean="MCAllClean", NetWill="MCNoWill")
 
 
@@ -71,9 +71,11 @@ def run_and_validate(ctx, pid, bindir, scripts, tag, inv, small, max_conn=2, out
         e = json.loads(lines[i])
         ctx.violation("the real router panicked at %s (%s) while handling a %s step" % (e.get("at"), e.get("panic"), e.get("ev")),
                       {"script": script_of(lines[start:i + 1]), "panic": e.get("panic"), "at": e.get("at")})
+    max_conn = scripts[0].get("cfg", {}).get("max_conn", max_conn)
+    out_batch = scripts[0].get("cfg", {}).get("out_batch", out_batch)
     consts = dict(Nets=nets, MaxConn=max_conn, MaxInflight=3 if small else 100, MaxChan=4 if small else 200, MaxSched=2 if small else 100,
                   OutBatch=out_batch, CIDs='{"c1", "c2", "c3"}', SubQoS="{}", PubQoS="{}", PubRetain="{}", Subscribers="{}", Publishers="{}",
-                  Adversaries="{}", MaxPub=0, MaxSubOps=0, MaxCloses=100, EnUnsub="TRUE", EnPing="TRUE", EnDisconnect="TRUE", EnStale="TRUE", RFix=RFIX)
+                  Adversaries="{}", MaxPub=0, MaxSubOps=0, MaxCloses=100, EnUnsub="TRUE", EnPing="TRUE", EnDisconnect="TRUE", EnStale="TRUE", PubEmpty="{}", RFix=RFIX)
     subst = dict(MatchRel="TMatch", Topics="TTopics", Filters="TFilters", NetCid="TNetCid", NetClean="TClean", NetWill="TNoWill")
     cfg = write(ctx, "MC_RouterTrace_" + tag, cfg_text(consts, subst,
                 "SPECIFICATION TraceSpec\nINVARIANTS %s\n%sCONSTRAINT Progress\nPOSTCONDITION TraceAccepted\nCHECK_DEADLOCK FALSE\n"
@@ -146,7 +148,8 @@ class Gen:
     def idle(self, budget=400):
         self.steps.append({"op": "idle", "max": budget})
 
-    def connect(self, n, cid, clean=True, will="null"):
+    def connect(self, n, cid, clean=True, will=None):
+        will = will if isinstance(will, dict) else {"m": 0, "topic": "none", "q": 0, "retain": False}
         self.steps += [{"op": "connect", "n": n, "cid": cid, "clean": clean, "will": will}, {"op": "event"}, {"op": "consume"}, {"op": "finish", "n": n}]
 
     def push(self, n, pk):
@@ -233,6 +236,9 @@ def run_router_property(ctx, pid, mc_runs, gen_runs, inv, big=True, act=(), trac
         sample = sample or scripts[0]
         t, e = run_and_validate(ctx, pid, bin_small, scripts, name, inv, small=True, act=act if trace_act is None else trace_act)
         n_traces += t; n_events += e
+    scripts = scenario_scripts(ctx.seed, 120 if ctx.quick else 1500)
+    t, e = run_and_validate(ctx, pid, bin_small, scripts, "scen", inv, small=True, act=act if trace_act is None else trace_act)
+    n_traces += t; n_events += e
     if big:
         scripts = backlog_scripts(ctx.seed, 3 if ctx.quick else 12)
         t, e = run_and_validate(ctx, pid, bin_prod, scripts, "prod", inv, small=False, max_conn=3, out_batch=10, act=act if trace_act is None else trace_act)
@@ -265,7 +271,7 @@ def fuzz_scripts(seed, count):
         for i in range(r.randint(2, 4)):
             n = "n%d" % (i + 1)
             g.connect(n, r.choice(cids[:4]), clean=r.random() < 0.5,
-                      will=r.choice(["null", "null", {"m": 9000 + i, "topic": ch(r.choice(topics[:4])), "q": r.choice([0, 1]), "retain": r.random() < 0.3}]))
+                      will=r.choice([None, None, {"m": 9000 + i, "topic": ch(r.choice(topics[:4])), "q": r.choice([0, 1]), "retain": r.random() < 0.3}]))
             nets.append(n)
         for _ in range(r.randint(20, 70)):
             n = r.choice(nets)
@@ -331,3 +337,86 @@ def run_fuzz(ctx, bindir, scripts, tag):
             else:
                 ctx.violation("after the schedule the broker no longer serves a fresh client (probe publish not delivered)", {"script": script_of(lines[start:i + 1])})
     return summ["scripts"], summ["events"], probes_ok
+
+
+# ---------------------------------------------------------------- structured scenarios (small-constant build)
+def scenario_scripts(seed, count):
+    """Seeded variants of situations the random walk of the model reaches rarely: a wildcard filter created after its
+    topics were published to, overlapping subscriptions of one client, publish and (un)subscribe in one batch, backlogs
+    larger than one scheduling turn / the window / the buffer, retained messages against the window, re-subscription."""
+    out = []
+    topics = ["a/b", "a/c", "b"]
+    for k in range(count):
+        g = Gen(seed * 104729 + k, max_conn=3, out_batch=2)
+        r = g.r
+        kind = k % 6
+        g.connect("n1", "c1"); g.connect("n2", "c2")
+        q1 = r.choice([0, 1, 2])
+        if kind == 0:          # late wildcard
+            first = r.choice([["#"], ["a/b", "a/c"], ["a/b"], ["b"], ["a/+"]])
+            for f in first:
+                g.subscribe("n1", f, q1)
+            g.idle(20)
+            for _ in range(r.randint(2, 5)):
+                g.publish("n2", r.choice(topics), r.choice([0, 1]))
+            g.idle(40)
+            g.connect("n3", "c3"); g.subscribe("n3", r.choice([f for f in ["a/+", "#", "a/b"] if f not in first]), r.choice([0, 1])); g.idle(20)
+            for t in topics + [r.choice(topics)]:
+                g.publish("n2", t, r.choice([0, 1]))
+        elif kind == 1:        # overlapping subscriptions of one client
+            for f in r.sample(["a/b", "a/+", "#", "a/c"], 3):
+                g.subscribe("n1", f, r.choice([0, 1, 2]))
+                if r.random() < 0.5:
+                    g.idle(10)
+            for _ in range(r.randint(3, 7)):
+                g.publish("n2", r.choice(topics), r.choice([0, 1, 2]))
+        elif kind == 2:        # publish and (un)subscribe in one batch
+            g.subscribe("n1", "a/+", q1); g.idle(20); g.steps.append({"op": "drain", "n": "n1"})
+            g.publish("n1", "a/b", r.choice([0, 1])); g.unsubscribe("n1", "a/+")
+            if r.random() < 0.5:
+                g.subscribe("n1", "a/+", r.choice([0, 1]))
+            g.idle(30)
+            g.publish("n2", "a/b", 1); g.publish("n2", "a/c", 0)
+        elif kind == 3:        # backlog larger than window / buffer / scheduling turn
+            g.subscribe("n1", r.choice(["a/+", "#"]), r.choice([0, 1, 2]))
+            if r.random() < 0.5:
+                g.subscribe("n1", "a/b", r.choice([0, 1]))
+            g.idle(20)
+            for _ in range(r.randint(6, 14)):
+                g.publish("n2", r.choice(topics[:2]), r.choice([0, 1]))
+                if r.random() < 0.3:
+                    g.idle(r.choice([2, 10]))
+        elif kind == 4:        # retained messages against the window
+            for t in r.sample(topics, r.randint(1, 3)):
+                g.publish("n2", t, r.choice([0, 1]), retain=True)
+            if r.random() < 0.3:
+                g.publish("n2", r.choice(topics), 0, retain=True, empty=True)
+            g.idle(30)
+            g.subscribe("n1", r.choice(["a/b", "a/+"]), 1); g.idle(10)
+            for _ in range(r.randint(2, 6)):
+                g.publish("n2", r.choice(topics[:2]), r.choice([0, 1]))
+            g.subscribe("n1", "#", r.choice([1, 2]))
+        else:                  # re-subscription and resume
+            g.steps = []
+            g.connect("n1", "c1", clean=False); g.connect("n2", "c2")
+            g.subscribe("n1", "a/+", 1); g.idle(20)
+            for _ in range(r.randint(2, 5)):
+                g.publish("n2", "a/b", r.choice([0, 1]))
+            g.idle(30); g.steps.append({"op": "drain", "n": "n1"})
+            g.steps.append({"op": "react", "n": "n1", "max": r.choice([0, 1, 2])})
+            g.steps.append({"op": "close", "n": "n1"}); g.idle(10)
+            for _ in range(r.randint(1, 3)):
+                g.publish("n2", "a/b", 1)
+            g.idle(20)
+            g.connect("n3", "c1", clean=r.random() < 0.2)
+            if r.random() < 0.5:
+                g.subscribe("n3", "a/+", r.choice([0, 1]))
+        # everybody drains and acknowledges until the broker is idle
+        for _ in range(8):
+            g.idle(60)
+            for n in ("n1", "n2", "n3"):
+                g.steps.append({"op": "drain", "n": n})
+                g.steps.append({"op": "react", "n": n, "max": r.choice([1, 3, 100])})
+        g.idle(100)
+        out.append({"cfg": g.cfg, "steps": g.steps})
+    return out
